@@ -105,6 +105,10 @@ func (c *vconn) Write(p []byte) (int, error) {
 		}
 	}
 	c.writes = append(c.writes, vconnWrite{append([]byte{}, p...), false})
+	if c.signalLocked {
+		c.signalLocked = false
+		defer c.signal()
+	}
 	if c.split && len(p) > 1 {
 		h := len(p) / 2
 		c.wire = append(c.wire, p[:h]...)
@@ -176,4 +180,19 @@ func verifBytes(key string, n int) []byte {
 		b[i] = verifNondetU8(key)
 	}
 	return b
+}
+
+// answerConnect makes the connection behave like a broker that sends resp once it has
+// received the first packet (CONNECT), never earlier.
+func (c *vconn) answerConnect(resp []byte) {
+	first := true
+	c.onWrite = func(c *vconn, p []byte) error {
+		if first {
+			first = false
+			c.rbuf = append(c.rbuf, resp...)
+			c.nInjected += len(resp)
+			c.signalLocked = true
+		}
+		return nil
+	}
 }
